@@ -56,8 +56,21 @@ pub fn run_c15(out: &mut Out, rng: &mut Rng, tier: Tier) -> String {
                     out.count(&format!("variant:{variant}"));
                 }
                 // consumption through iterator adaptors instead of next / next_back
+                // (jumps within one vector of the major axis, across several of them, to the last item and past the end)
+                let (n, minor) = (nr * nc, if order == matreex::Order::RowMajor { nc } else { nr });
+                let mut adaptors: Vec<String> = ["n1", "nb1", "ss", "tr", "rs", "last", "count", "fold"].iter().map(|a| a.to_string()).collect();
+                if n > 0 {
+                    for k in [2 * minor, 2 * minor + 1, n - 1, n] {
+                        adaptors.push(format!("n{k}"));
+                        adaptors.push(format!("nb{k}"));
+                    }
+                    adaptors.push(format!("nn{}x{}", minor, minor + 1));
+                    adaptors.push(format!("nn{}x{}", 0, 2 * minor));
+                    adaptors.push(format!("ss{}x{}", minor + 1, 2 * minor + 1));
+                    adaptors.push(format!("ss{}x{}", 0, minor + 1));
+                }
                 for variant in SEQ {
-                    for adaptor in ["n1", "nb1", "ss", "tr", "rs", "last", "count", "fold"] {
+                    for adaptor in &adaptors {
                         w.new_matrix(out, 0, order, nr, nc, 1);
                         w.iter_adapt(out, 0, variant, adaptor);
                     }
